@@ -40,7 +40,24 @@ def gen_c16(rng: random.Random, sid: str, thorough: bool) -> dict:
             placed = True
         if st['op'] == 'at' and rng.random() < 0.25:
             out.append({'op': 'resp', 'recs': remote_recs(rng)})
-    sc['steps'] = [s for s in out if not (s['op'] == 'query' and s.get('copies', 1) > 1)] if False else out
+    # the very same datagram again after the one-second window (a client polling with an identical query, a periodic
+    # identical announcement): the later steps move back by the gap
+    rep: List[dict] = []
+    shift = 0
+    tcur = 0
+    for st in out:
+        if st['op'] == 'at':
+            tcur = st['t'] + shift
+            rep.append({'op': 'at', 't': tcur})
+            continue
+        rep.append(st)
+        if st['op'] in ('query', 'resp') and not st.get('tc') and rng.random() < 0.2:
+            for _ in range(rng.choice([1, 2])):
+                gap = rng.choice([1001, 1200, 2000, 5000])
+                shift += gap
+                tcur += gap
+                rep += [{'op': 'at', 't': tcur}, json.loads(json.dumps(st))]
+    sc['steps'] = rep
     for s in sc['steps']:
         s.pop('copies', None)
         # question classes other than IN (the library answers them like IN): only here, where two executions are compared and
